@@ -246,7 +246,8 @@ class Prim:
 
     def __init__(self, lean, args=(), ret=None, opt=0, partial=False, mut=False, optwrap=True, kw=None,
                  defaults=None):
-        self.lean, self.args, self.ret, self.opt = lean, [T(a) if a is not None else None for a in args], ret, opt
+        self.lean, self.ret, self.opt = lean, ret, opt
+        self.args = [('elem',) if a == '$elem' else (T(a) if a is not None else None) for a in args]
         self.partial, self.mut, self.optwrap, self.kw = partial, mut, optwrap, kw or []
         self.defaults = defaults       # Lean texts used for omitted optional args (instead of none/some)
 
@@ -283,8 +284,8 @@ METHODS = {
     ('str', 'lower'): Prim('(Yaql.PyStr.lower {cfg} {self})', [], STR),
     # list
     # list.insert converts the index to Py_ssize_t (OverflowError outside)
-    ('list', 'insert'): Prim('(Yaql.Py.listInsert? {self} {0} {1})', ['int', None], None, mut=True, partial=True),
-    ('list', 'append'): Prim('({self} ++ [{0}])', [None], None, mut=True),
+    ('list', 'insert'): Prim('(Yaql.Py.listInsert? {self} {0} {1})', ['int', '$elem'], None, mut=True, partial=True),
+    ('list', 'append'): Prim('({self} ++ [{0}])', ['$elem'], None, mut=True),
     ('list', 'extend'): Prim('({self} ++ {0})', [None], None, mut=True),
     # dict
     ('dict', 'items'): Prim('{self}', [], lambda r, a: ('list', ('tup', r[1], r[2]))),
@@ -329,7 +330,7 @@ class Target:
 
     def __init__(self, qual, area, owners, params, ret, model=None, theorem=None, raises=False, ambient=(),
                  prims=None, name=None, errors=None, fuel=False, consts=None, note='', gen=None, pre=None,
-                 diff=None, expr=None, locals=None, fuel_expr=None, vararg=False, callname=None, pyargs=None):
+                 diff=None, expr=None, locals=None, fuel_expr=None, vararg=False, callname=None, pyargs=None, state=None):
         self.qual = qual                      # 'pkg.module:func' or 'pkg.module:Class.method'
         self.module, self.func = qual.split(':')
         self.area, self.owners = area, list(owners)
@@ -347,6 +348,7 @@ class Target:
         self.diff = diff                      # False: no source-level differential for this target
         self.expr = expr                      # how the function is reached from a yaql expression (for the oracle)
         self.locals = {k: T(v) for k, v in (locals or {}).items()}   # declared types of locals (None-initialised ...)
+        self.state = [(d, T(ty)) for d, ty in (state or [])]   # attributes of `self` threaded as state: [('self.x', type)]
         self.pyargs = pyargs                  # abstract generated arguments -> python arguments (differential)
         self.vararg = vararg                  # the last parameter is `*args` (a list on the Lean side)
         self.callname = callname              # dotted name under which other modules call it (e.g. 'utils.f')
@@ -548,10 +550,37 @@ class FnTranslator:
                 self.refuse(f, 'only positional parameters (and *args as one list parameter) are supported')
         pnames = [x.arg for x in a.args] + ([a.vararg.arg] if a.vararg else [])
         declared = [p for p, _ in self.t.params]
-        if pnames != declared:
-            self.refuse(f, 'parameter list %r differs from the typing entry %r' % (pnames, declared))
         env = {}
         binders = []
+        state_vars = []
+        if self.t.state:
+            # a method in state-passing style: the attributes of `self` named in the typing entry become leading
+            # parameters and are handed back with the result; every other use of `self` is refused (unknown name)
+            owner = self.t.state[0][0].split('.')[0]
+            if not pnames or pnames[0] != owner:
+                self.refuse(f, 'state-passing translation expects %r as the first parameter' % owner)
+            pnames = pnames[1:]
+            smap = {d: d.replace('.', '_') for d, _ in self.t.state}
+            tr = self
+
+            class Rewrite(ast.NodeTransformer):
+                def visit_Attribute(self, node):
+                    d = tr.dotted(node)
+                    if d in smap:
+                        return ast.copy_location(ast.Name(id=smap[d], ctx=node.ctx), node)
+                    return self.generic_visit(node)
+
+            f = Rewrite().visit(f)
+            ast.fix_missing_locations(f)
+            a = f.args
+            a.args = a.args[1:]
+            for d, ty in self.t.state:
+                nm = smap[d]
+                env[nm] = Var(lean_ident(nm), ty, param=False, fresh=True)
+                binders.append('(%s : %s)' % (lean_ident(nm), lean_type(ty)))
+                state_vars.append(nm)
+        if pnames != declared:
+            self.refuse(f, 'parameter list %r differs from the typing entry %r' % (pnames, declared))
         for (ln, lt) in self.t.ambient:
             binders.append('(%s : %s)' % (ln, lt))
         if self.t.fuel:
@@ -572,11 +601,29 @@ class FnTranslator:
                 dflt = ' := ' + de.text
             binders.append('(%s : %s%s)' % (v.lean, lean_type(ty), dflt))
         ret = self.t.ret
+        if state_vars and self.is_gen:
+            self.refuse(f, 'a generator method with state')
         if self.is_gen:
             if ret[0] != 'list':
                 self.refuse(f, 'a generator function needs a list result type in its typing entry')
             env[OUT] = Var(OUT, ret, fresh=True)
-        full_ret = ('except', ret) if self.monadic else ret
+        st_types = [ty for _, ty in self.t.state]
+        out_ty = ret
+        if state_vars:
+            out_ty = (st_types[0] if len(st_types) == 1 else ('tup',) + tuple(st_types)) if ret == UNIT else \
+                ('tup', ret) + tuple(st_types)
+        full_ret = ('except', out_ty) if self.monadic else out_ty
+
+        def with_state(text, env_):
+            if not state_vars:
+                return text
+            for nm in state_vars:
+                if nm not in env_:
+                    self.refuse(f, 'state variable %r is undefined at a return' % nm)
+            sts = [env_[nm].lean for nm in state_vars]
+            if ret == UNIT:
+                return sts[0] if len(sts) == 1 else '(%s)' % ', '.join(sts)
+            return '(%s, %s)' % (text, ', '.join(sts))
 
         def do_ret(e, env_):
             if self.is_gen:
@@ -587,6 +634,9 @@ class FnTranslator:
             if e is None:
                 e = E('()', UNIT) if ret == UNIT else E('none', NONE)
             e = self.coerce(e, ret, f)
+            if state_vars:
+                body = with_state(e.text, env_)
+                return self.with_binds(e.binds, '(.ok %s)' % body if self.monadic else body, ctx)
             if self.monadic and e.binds and e.text == e.binds[-1][0]:
                 # `return <partial call>`: the call's own outcome is the function's outcome
                 return self.with_binds(e.binds[:-1], e.binds[-1][1], ctx)
@@ -599,6 +649,7 @@ class FnTranslator:
             return '(.error %s)' % errtext
 
         ctx = Ctx(do_ret, do_raise, ans_ty=lean_type(full_ret, False))
+        self.fnode = f
         body = strip_doc(f.body)
         if not body:
             self.refuse(f, 'empty body')
@@ -779,11 +830,31 @@ class FnTranslator:
             exc = exc.func
         # the message arguments carry no behaviour we model, but they are evaluated: they must be pure
         for a in args:
+            if self.pure_message(a, env):
+                continue
             if self.tr_expr(a, env).binds:
                 self.refuse(s, 'argument of the raised exception may itself raise')
         if isinstance(exc, ast.Name) and exc.id in env and env[exc.id].ty == ('named', 'Yaql.Py.Err'):
             return ctx.raise_(env[exc.id].lean)          # `raise exception_cls(...)`: the class is a parameter
         return ctx.raise_(self.err_text(s))
+
+    def pure_message(self, n, env):
+        """an exception message built from constants, variables, `+`, `%`, `.format(..)`, str()/repr(): it has no
+        behaviour the translation models (the exception CLASS is the observation) and cannot raise on its own"""
+        if isinstance(n, ast.Constant):
+            return True
+        if isinstance(n, ast.Name):
+            return n.id in env or self.const_of(n.id) is not None
+        if isinstance(n, ast.BinOp) and isinstance(n.op, (ast.Add, ast.Mod)):
+            return self.pure_message(n.left, env) and self.pure_message(n.right, env)
+        if isinstance(n, (ast.Tuple, ast.List)):
+            return all(self.pure_message(x, env) for x in n.elts)
+        if isinstance(n, ast.Call) and not n.keywords:
+            if isinstance(n.func, ast.Attribute) and n.func.attr == 'format':
+                return self.pure_message(n.func.value, env) and all(self.pure_message(x, env) for x in n.args)
+            if isinstance(n.func, ast.Name) and n.func.id in ('str', 'repr') and n.func.id not in env:
+                return all(self.pure_message(x, env) for x in n.args)
+        return False
 
     def st_Break(self, s, env, ctx, cont, rest):
         if ctx.brk is None:
@@ -976,7 +1047,15 @@ class FnTranslator:
                 ', '.join(env[n].lean for n, _, _ in inar),
                 ', '.join('%s %s' % (ctor, env[n].lean) for n, ctor, _ in inar), block(a),
                 ', '.join('_' for _ in inar), block(b))
-        binds, cond = self.tr_cond(s.test, env)
+        try:
+            saved = (self.ntmp, self.size)
+            binds, cond = self.tr_cond(s.test, env)
+        except Refuse as e:
+            if 'short-circuit position' not in e.why or not isinstance(s.test, (ast.BoolOp, ast.UnaryOp)):
+                raise
+            # an operand of and/or/not may raise: evaluate the operands one by one, as Python does
+            self.ntmp, self.size = saved
+            return self.tr_stmts(self.split_cond(s.test, s.body, s.orelse, s), env, ctx, cont)
         if cond in ('(true = true)', '(false = true)') and not binds:
             # statically decided by the typing entry: only the live branch is translated
             live = s.body if cond == '(true = true)' else s.orelse
@@ -989,6 +1068,22 @@ class FnTranslator:
             b = self.tr_stmts(s.orelse, env, ctx, cont)
             text = 'if %s then %s\nelse %s' % (cond, block(a), block(b))
         return self.with_binds(binds, text, ctx)
+
+    def split_cond(self, test, then, orelse, at):
+        """`if test: then else: orelse` with and/or/not unfolded into nested ifs on the operands (same meaning:
+        this IS the short-circuit evaluation order); the branches are duplicated"""
+        def mk(t, a, b):
+            return [ast.copy_location(ast.If(test=t, body=a or [ast.copy_location(ast.Pass(), at)],
+                                             orelse=b), at)]
+        if isinstance(test, ast.UnaryOp) and isinstance(test.op, ast.Not):
+            return self.split_cond(test.operand, orelse or [ast.copy_location(ast.Pass(), at)], then, at)
+        if isinstance(test, ast.BoolOp):
+            first, restv = test.values[0], test.values[1:]
+            rest = restv[0] if len(restv) == 1 else ast.copy_location(ast.BoolOp(op=test.op, values=restv), test)
+            if isinstance(test.op, ast.And):
+                return self.split_cond(first, self.split_cond(rest, then, orelse, at), orelse, at)
+            return self.split_cond(first, then, self.split_cond(rest, then, orelse, at), at)
+        return mk(test, then, orelse)
 
     def if_join(self, s, cond, env, ctx, cont):
         probe = Ctx(lambda e, env_: '', lambda t: '', (lambda env_: '') if ctx.brk else None,
@@ -1219,9 +1314,21 @@ class FnTranslator:
 
         sv = self.tmp('s')
         prologue = destruct(st_names, st_types, sv) if state_all else ''
-        cbinds, cond = self.tr_cond(s.test, env_body)
+        try:
+            cbinds, cond = self.tr_cond(s.test, env_body)
+        except Refuse as e:
+            if 'short-circuit position' not in e.why:
+                raise
+            cbinds = [1]
         if cbinds:
-            self.refuse(s.test, 'loop condition that may raise')
+            if getattr(s, '_split', False):
+                self.refuse(s.test, 'loop condition that may raise')
+            # while C: B   ==   while True: (if C: B else: break), with C evaluated operand by operand
+            brk = [ast.copy_location(ast.Break(), s)]
+            w = ast.copy_location(ast.While(test=ast.copy_location(ast.Constant(value=True), s),
+                                            body=self.split_cond(s.test, s.body, brk, s), orelse=[]), s)
+            w._split = True
+            return self.st_While(w, env, ctx, cont, rest)
         ret_ty = ctx.ans_ty
         lctx = Ctx(lambda e, env_: '(Yaql.Py.Step.ret %s)' % block(ctx.ret(e, env_)),
                    lambda t: '(Yaql.Py.Step.ret %s)' % block(ctx.raise_(t)),
@@ -1373,6 +1480,10 @@ class FnTranslator:
             if e.ty is not None and e.ty[0] == 'named':
                 uni = self.universes.get(e.ty[1], {})
                 spec = uni.get('ops', {}).get(opname)
+                if isinstance(spec, list):
+                    # overloads: the first whose parameter types fit the operands
+                    spec = next((sp for sp in spec if len(sp.args) == len(es) and all(
+                        pt is None or self.compatible(x.ty, pt) for pt, x in zip(sp.args, es))), None)
                 if spec is not None:
                     return self.apply_prim(spec, es, node)
         return None
@@ -1520,6 +1631,10 @@ class FnTranslator:
                 return '(%s = none)' % a.text if o == 'Is' else '(%s ≠ none)' % a.text
             if b.ty == BOOL and a.ty == BOOL:
                 return '(%s = %s)' % (a.text, b.text) if o == 'Is' else '(%s ≠ %s)' % (a.text, b.text)
+            if a.ty is not None and a.ty[0] == 'named' and b.text in ('true', 'false', 'none'):
+                tmpl = self.universes.get(a.ty[1], {}).get('is_const', {}).get(b.text)
+                if tmpl is not None:
+                    return '(%s = %s)' % (tmpl.format(a.text), 'true' if o == 'Is' else 'false')
             r = self.named_op(o, [a, b], n)
             if r is not None:
                 return '(%s = true)' % r.text
@@ -1559,6 +1674,9 @@ class FnTranslator:
 
     def contains_expr(self, a, b, n):
         """Bool text of `a in b`"""
+        if b.ty[0] == 'tup' and len(set(b.ty[1:])) == 1 and not b.binds:
+            # a fixed-size tuple of one element type used as a collection
+            b = E('[%s]' % ', '.join('%s%s' % (b.text, pr) for pr in projections(len(b.ty) - 1)), ('list', b.ty[1]))
         if b.ty == STR and a.ty == STR:
             return '(Yaql.PyStr.contains %s %s)' % (b.text, a.text)
         if b.ty[0] == 'list' and self.structural_eq(b.ty[1]):
@@ -1646,6 +1764,13 @@ class FnTranslator:
             key = self.coerce(idx, recv.ty[1], n)
             t = self.tmp()
             return E(t, recv.ty[2], binds + [(t, '(Yaql.Py.dictIndex %s %s)' % (recv.text, key.text))])
+        if recv.ty[0] == 'named' and isinstance(n.slice, ast.Constant) and isinstance(n.slice.value, int) \
+                and n.slice.value in self.universes.get(recv.ty[1], {}).get('index_const', {}):
+            tmpl, ty, partial = self.universes[recv.ty[1]]['index_const'][n.slice.value]
+            if partial:
+                t = self.tmp()
+                return E(t, T(ty), recv.binds + [(t, tmpl.format(recv.text))])
+            return E(tmpl.format(recv.text), T(ty), recv.binds)
         if recv.ty[0] == 'named' and isinstance(n.slice, ast.Constant) and isinstance(n.slice.value, str):
             item = self.universes.get(recv.ty[1], {}).get('items', {}).get(n.slice.value)
             if item is not None:          # a record held as a dict with constant string keys
@@ -1688,7 +1813,9 @@ class FnTranslator:
                     texts.append('none')
                 atys.append(None)
                 continue
-            if pty is not None:
+            if pty == ('elem',):
+                a = self.coerce(a, elem_type(recv.ty), node)
+            elif pty is not None:
                 a = self.coerce(a, pty, node)
             elif a.ty == NONE or (a.ty[0] == 'list' and a.ty[1] is None):
                 self.refuse(node, 'untyped argument for a generic primitive parameter')
@@ -1834,6 +1961,8 @@ class FnTranslator:
 
     def bi_len(self, n, env):
         e = self.one_arg(n, env, 'len')
+        if e.ty[0] == 'named' and 'len' in self.universes.get(e.ty[1], {}):
+            return E(self.universes[e.ty[1]]['len'].format(e.text), INT, e.binds)
         if e.ty[0] not in ('str', 'list', 'dict'):
             self.refuse(n, 'len of a value of type %s' % (e.ty,))
         return E('(%s.length : Int)' % e.text, INT, e.binds)
@@ -1937,6 +2066,16 @@ class FnTranslator:
         if e.ty[0] in ('int', 'str', 'bool', 'list', 'dict', 'tup'):
             return E('false', BOOL, e.binds)
         self.refuse(n, 'callable() of a value of type %s' % (e.ty,))
+
+    def bi_str(self, n, env):
+        e = self.one_arg(n, env, 'str')
+        if e.ty == STR:
+            return e
+        if e.ty == INT:
+            return E('(Yaql.Py.intStr %s)' % e.text, STR, e.binds)
+        if e.ty[0] == 'named' and 'str' in self.universes.get(e.ty[1], {}):
+            return E(self.universes[e.ty[1]]['str'].format(e.text), STR, e.binds)
+        self.refuse(n, 'str() of a value of type %s' % (e.ty,))
 
     def bi_bool(self, n, env):
         e = self.one_arg(n, env, 'bool')
